@@ -80,7 +80,7 @@ def main(ctx, replay=None):
                         "QHA's P(T,V) is the pressure field (dependency)"]
     wd = Workdir()
     try:
-        nruns = 3 if ctx.tier == "quick" else 16
+        nruns = 3 if ctx.tier == "quick" else 40
         recs = []
         for n in range(nruns):
             ds = system_dataset(rng, exports, str(rng.choice(fillspec.SYSTEMS)), lattice=bool(n % 2)) if n % 3 == 0 else free_dataset(rng, extra_shear=int(rng.integers(0, 6)), lattice=bool(n % 2))
